@@ -280,6 +280,56 @@ def run(rep, ctx):
                      "%s: suffix reader built only on the path where sufheadcheck(&SR) returned 0" % g_.name)
 
     # ---- P1 ---------------------------------------------------------------------------
+    # ---- F1: file text never becomes a printf format -------------------------------------------------
+    f1 = rep.rule("C14.F1", "WHO", "the error formatter (vsnprintf) receives literal formats only; text read from the file is passed as an argument, and the conversions match the arguments", floor=8)
+    # frozen exception, read on the pinned tree: CheckReader's last branch is reached only for result codes other than OK / Early_EOF / Bad_Line, i.e. for
+    # errors set by the solution handler through SetError (programme text); the line read from the file is stored only together with Bad_Line, which is handled before.
+    F1_EXC = {("CheckReader", "rd.ErrorMessage().c_str()")}
+    nse = 0
+    seen_k = {}
+    for g_ in funcs:
+        if not (g_.qn.startswith(SR2) and easy(g_)):
+            continue
+        for c in g_.walk():
+            if c["k"] != "CXXMemberCallExpr" or not (c.get("callee") or "").endswith("::serror"):
+                continue
+            nse += 1
+            a = call_args(c)
+            fmt0 = strip(a[0])
+            while fmt0["k"] in ("ImplicitCastExpr",) and kids(fmt0):
+                fmt0 = strip(kids(fmt0)[0])
+            base = "%s|%s" % (g_.name, render(a[0])[:40].replace("\n", " "))
+            seen_k[base] = seen_k.get(base, 0) + 1
+            key = base + ("#%d" % seen_k[base] if seen_k[base] > 1 else "")
+            if fmt0["k"] == "StringLiteral":
+                txt = fmt0.get("v", "")
+                convs = re.findall(r"%[-+ #0-9.*]*(?:hh|h|ll|l|z|j|t|L)?([diouxXeEfgGcspn%])", txt)
+                convs = [x for x in convs if x != "%"]
+                okc = len(convs) == len(a) - 1 and "n" not in convs
+                for cv_, ar in zip(convs, a[1:]):
+                    t_ = (strip(ar).get("ct") or "")
+                    if cv_ == "s" and not ("char" in t_ and "*" in t_ or "char[" in t_ or "char [" in t_):
+                        okc = False
+                    if cv_ in "di" and not any(x in t_ for x in ("int", "long", "short", "char", "bool")):
+                        okc = False
+                f1.check(okc, key, short_loc(c.get("l")), "literal format with %d conversion(s) matching its arguments" % len(convs),
+                         "format %r: conversions %s do not match the %d argument(s) passed" % (txt[:40], convs, len(a) - 1))
+            else:
+                f1.check((g_.name, render(a[0]).replace(" ", "")) in F1_EXC, key, short_loc(c.get("l")), "non-literal format: handler-provided message (frozen exception, see the rule)",
+                         "%s passes `%s` as the FORMAT of the error formatter: a '%%' in text taken from the .sol file is interpreted as a conversion (wrong message, or a read through a missing argument)" % (g_.name, render(a[0])[:60]))
+    if nse < 8:
+        raise AnalysisBroken("C14.F1: only %d serror calls found" % nse)
+    se = [g_ for g_ in funcs if g_.name == "serror" and easy(g_)]
+    if se:
+        vs = [c for c in se[0].walk() if c["k"] == "CallExpr" and (c.get("callee") or "").endswith("vsnprintf")]
+        okv = len(vs) == 2 and all(render(call_args(v)[2]) == se[0].params[0]["name"] for v in vs)
+        f1.check(okv, "serror|forwards-format", short_loc(se[0].loc), "serror hands its format parameter and the va_list to vsnprintf (size query, then fill)")
+    # the line text is stored only together with Bad_Line
+    rdf = [g_ for g_ in funcs if g_.qn == "mp::Read" and g_.cfg is not None]
+    for g_ in rdf[:1]:
+        fg = [c for c in g_.walk() if c["k"] == "CallExpr" and (c.get("callee") or "").split("::")[-1] == "fgets"]
+        f1.check(len(fg) == 1, "line-buffer|Read", short_loc(g_.loc), "the text line is read into the reader's message buffer by the single fgets of Read()")
+
     p1 = rep.rule("C14.P1", "PATH",
                   "after each handler call that received a reader, CheckReader is evaluated and its "
                   "failure returns the error code; ReadNext zeroes its counter on failure", floor=6)
